@@ -112,6 +112,7 @@ struct Inflight {
 	int caller = -1; bool has_id = false; Value caller_id;
 	int owner = -1; std::string path; bool is_set = false; Value payload;
 	uint64_t deadline = 0;
+	uint64_t tns = 0; // duration the daemon must arm
 	std::string rid; // learned from the owner's transcript
 };
 
@@ -454,7 +455,7 @@ struct Model {
 		uint64_t tns;
 		if (timeout_of(P("timeout"), e.timeout_ns, tns) < 0) return err("bad timeout");
 		Inflight r; r.seq = next_seq++; r.caller = pi; r.has_id = id != nullptr; if (id) r.caller_id = *id;
-		r.owner = e.owner; r.path = path->s; r.is_set = is_set; r.payload = val ? *val : Value::obj(); r.deadline = now_ns + tns;
+		r.owner = e.owner; r.path = path->s; r.is_set = is_set; r.payload = val ? *val : Value::obj(); r.deadline = now_ns + tns; r.tns = tns;
 		Exp rt; rt.k = Exp::ROUTED; rt.path = path->s; rt.is_set = is_set; rt.value = r.payload; rt.inflight_seq = r.seq; rt.why = "routed " + name + " " + path->s;
 		rt.alt_refusal = inflight_of_owner(e.owner) >= (1u << (cfg.route_order - 1));
 		if (rt.alt_refusal) x.alt_refusal = true;
@@ -482,9 +483,11 @@ struct Model {
 		return false;
 	}
 
-	void advance(uint64_t ns, StepExp &x)
+	void advance(uint64_t ns, StepExp &x) { clock(ns); expire(x); }
+	void clock(uint64_t ns) { now_ns += ns; }
+	// the event loop processes the expiries that are due
+	void expire(StepExp &x)
 	{
-		now_ns += ns;
 		std::vector<Inflight> keep;
 		std::map<int, Group> answers;
 		for (auto &r : inflight) {
